@@ -12,6 +12,9 @@ import lib
 MODULES = {
     "C02": "fmt", "C03": "fmt", "C04": "fmt", "C05": "fmt", "C06": "fmt",
 }
+import generic
+for _p in generic.PROPS:
+    MODULES[_p] = "generic"
 
 
 def match_known(pid, failure, known):
@@ -21,6 +24,8 @@ def match_known(pid, failure, known):
             continue
         w = k.get("when", {})
         if "kind" in w and failure.get("kind") not in ([w["kind"]] if isinstance(w["kind"], str) else w["kind"]):
+            continue
+        if "stream" in w and failure.get("shell") not in ([w["stream"]] if isinstance(w["stream"], str) else w["stream"]):
             continue
         if "shell" in w and failure.get("shell") not in ([w["shell"]] if isinstance(w["shell"], str) else w["shell"]):
             continue
@@ -135,6 +140,7 @@ def main():
         payload = dict(property=pid, kind="counterexample", oracle_failure=dict(kind=f.get("kind"), shell=f.get("shell"), detail=lib.b2s(f.get("detail", b""))),
                        case=mod.case_summary(f["case"], f["impl"]) if hasattr(mod, "case_summary") else None,
                        case_hex=[x.hex() for x in f["case"]], extras_hex=[x.hex() for x in f.get("extras", [])],
+                       impl_hex=[x.hex() for x in f["impl"]] if isinstance(f["impl"], list) else None,
                        impl_output=lib.b2s(f["impl"]), seed=seed, rerun="./check %s --replay <this file>" % pid,
                        broken=broken)
         path = lib.write_replay(pid, nrep, payload)
@@ -145,7 +151,7 @@ def main():
     if not new and (broken or res["tie_broken"]):
         tb = res["tie_broken"][:3]
         payload = dict(property=pid, kind="broken-proof" if broken else "broken-tie",
-                       theorem_or_tie=broken or ["correspondence Model/ShellValue.v <-> internal/shell.Value on the %s projection" % pid],
+                       theorem_or_tie=broken or ["correspondence %s (property %s)" % (getattr(mod, "PROPS", {}).get(pid, {}).get("tie", "Model/ShellValue.v <-> internal/shell.Value"), pid)],
                        mismatching_cases=[dict(case=mod.case_summary(t["case"], t["impl"]), model_output=lib.b2s(t["model"]),
                                                case_hex=[x.hex() for x in t["case"]]) for t in tb],
                        coq_log_tail=b.coq_log[-3000:], seed=seed)
